@@ -3,6 +3,7 @@ package nc
 import (
 	"fmt"
 	"go/types"
+	"sort"
 	"strings"
 
 	"golang.org/x/tools/go/ssa"
@@ -247,6 +248,29 @@ func C16(p *Prog, r *Run) {
 		c03Core(p, r, NewSummaries(p))
 	})
 
+	r.Rule("C16.6", "offspring share nothing with the old generation (the assumption behind C16.3): duplicates and crossover children are built from copies - the obligations of C06.1-C06.3 (exact, alias-free duplicate) and C04.1, C04.6, C04.7, C04.8 (gene copies, parents unmodified, averaged trait objects, copied interface nodes)", func() {
+		for _, dep := range []struct {
+			id   string
+			run  func(*Prog, *Run)
+			keep []string
+		}{{"C06", C06, []string{"C06.1", "C06.2", "C06.3"}}, {"C04", C04, []string{"C04.0", "C04.1", "C04.6", "C04.7", "C04.8"}}} {
+			sub := NewRun(p, dep.id, r.Tier)
+			dep.run(p, sub)
+			for _, o := range sub.Obs {
+				keep := false
+				for _, k := range dep.keep {
+					if strings.HasPrefix(o.Rule, k) {
+						keep = true
+					}
+				}
+				if keep {
+					r.add(o.Status, o.Rule+":"+o.Construct, o.Pos, o.Detail, o.Path)
+				}
+			}
+			r.FieldsChecked += sub.FieldsChecked
+		}
+	})
+
 	r.Rule("C16.4", "hand-over: results carry no pointer to repository types; wg.Add precedes go, Done is deferred, Wait dominates close and the receive loop; the closure captures nothing", func() {
 		res := p.Named(PkgG, "reproductionResult")
 		st := res.Underlying().(*types.Struct)
@@ -260,6 +284,59 @@ func C16(p *Prog, r *Run) {
 		if okT {
 			r.OK("result.type", p.Pos(res.Obj().Pos()), "reproductionResult holds only values, bytes and an error")
 		}
+		// what is handed over is owned by the goroutine: every pointer-like field of the value sent on the
+		// channel holds memory rooted in an allocation of the goroutine itself (not a parameter, a global
+		// or a pooled object that another goroutine may obtain as well)
+		wtr := NewWriteThrough(p, S)
+		nSend := 0
+		Instrs(root, func(_ *ssa.BasicBlock, _ int, in ssa.Instruction) {
+			snd, ok := in.(*ssa.Send)
+			if !ok {
+				return
+			}
+			nSend++
+			ld, ok := snd.X.(*ssa.UnOp)
+			var al *ssa.Alloc
+			if ok {
+				al, _ = ld.X.(*ssa.Alloc)
+			}
+			if al == nil {
+				r.Bad("result.owned", p.Pos(snd.Pos()), "the value sent on the result channel is not a local struct of the goroutine; the ownership of what it holds cannot be established")
+				return
+			}
+			for _, ref := range *al.Referrers() {
+				fa, ok := ref.(*ssa.FieldAddr)
+				if !ok {
+					continue
+				}
+				fld := fieldOf(fa.X.Type(), fa.Field)
+				if !isPointerLike(fld.Type()) || fld.Type().String() == "error" {
+					continue
+				}
+				for _, r2 := range *fa.Referrers() {
+					st, ok := r2.(*ssa.Store)
+					if !ok || st.Addr != ssa.Value(fa) {
+						continue
+					}
+					var bad []string
+					for k := range wtr.roots(root, st.Val, 0, map[ssa.Value]bool{}) {
+						switch {
+						case k == rootFresh:
+						case k == rootGlobal:
+							bad = append(bad, "a package-level object")
+						case k == rootUnknown:
+							bad = append(bad, "an object of unknown origin")
+						default:
+							bad = append(bad, "the goroutine's argument "+root.Params[k].Name())
+						}
+					}
+					sort.Strings(bad)
+					r.Check(len(bad) == 0, "result.owned:"+fld.Name(), p.Pos(st.Pos()), "reproductionResult."+fld.Name()+" holds memory allocated by this goroutine",
+						"reproductionResult."+fld.Name()+" is handed to the collector but may point into "+strings.Join(bad, ", ")+" (e.g. a pooled buffer that is given back when the goroutine ends): another goroutine can obtain and overwrite the same memory before the collector has decoded it")
+				}
+			}
+		})
+		r.Floor("sends on the result channel", nSend, 1)
 		r.Check(len(root.FreeVars) == 0, "closure.free-vars", p.Pos(root.Pos()), "the goroutine body captures no variable (everything is passed as an argument)",
 			fmt.Sprintf("the goroutine body captures %d variable(s) of the enclosing function (e.g. the loop variable): shared between goroutines", len(root.FreeVars)))
 		// channel element type
